@@ -59,6 +59,20 @@ def plan(tier):
     return [(c, n) for c in CLASSES]
 
 
+TAGSETS = [["t1"], ["t2", "t3"]]     # caller-owned set objects, re-used
+
+
+def tag_list(tags):
+    """the tag names a literal `tags` description stands for"""
+    if isinstance(tags, str):
+        return tags.split()
+    if isinstance(tags, tuple) and tags and tags[0] == "set":
+        return list(TAGSETS[tags[1]])
+    if isinstance(tags, tuple) and tags and tags[0] == "tuple":
+        return list(tags[1])
+    return tags
+
+
 # ------------------------------------------------------------------ shadow
 def compatible(s1, s2):
     for k, v in s1.items():
@@ -236,12 +250,13 @@ def gen(cls, idx, rng, tier):
                 start = rng.choice([-1, L, L - 1, L + 3, -L])
         tags = None
         if rng.random() < tag_p:
-            tags = rng.choice([["t1"], ["t2"], ["t1", "t2"], "t1 t3", []])
+            tags = rng.choice([["t1"], ["t2"], ["t1", "t2"], "t1 t3", [],
+                               ("set", 0), ("set", 1), ("set", 0),
+                               ("tuple", ["t2", "t3"])])
         ops.append(("add", scope, name, length, start, tags))
         must, may = sh.judge_add(scope, name, length, start)
         if must is None and not may:
-            tl = tags.split() if isinstance(tags, str) else tags
-            f = sh.add(scope, name, length, start, tl)
+            f = sh.add(scope, name, length, start, tag_list(tags))
             # open child scopes on some values of this field
             depth = len(scope)
             if rng.random() < (.7 if cls == "deep" else .45) and depth < 4:
@@ -359,6 +374,7 @@ def run(case, ctx):
     L = case["L"]
     bf = B.BitField(L)
     sh = Shadow(L)
+    caller_sets = [set(t) for t in TAGSETS]
     laid_out = False
     queries = []
     trace = []
@@ -385,9 +401,15 @@ def run(case, ctx):
             check(ok, "scope-rejected", "bf(**%r): %s" % (scope, scoped))
             sh.see_values(scope)
             must, may = sh.judge_add(scope, name, length, start)
+            if isinstance(tags, tuple) and tags and tags[0] == "set":
+                real_tags = caller_sets[tags[1]]    # the SAME object again
+            elif isinstance(tags, tuple) and tags and tags[0] == "tuple":
+                real_tags = tuple(tags[1])
+            else:
+                real_tags = tags
             try:
                 ok, res = call("add_field", lambda: scoped.add_field(
-                    name, length=length, start_at=start, tags=tags))
+                    name, length=length, start_at=start, tags=real_tags))
             except Violation as v:
                 if "RecursionError" in v.msg and must is None and \
                         not sh.chain_scope(scope):
@@ -418,9 +440,12 @@ def run(case, ctx):
                       trace=trace[-6:])
                 ctx.count("explicit_definition_rejected")
                 continue
-            tl = tags.split() if isinstance(tags, str) else tags
-            sh.add(scope, name, length, start, tl)
+            sh.add(scope, name, length, start, tag_list(tags))
             laid_out = False
+            for k_, want_ in enumerate(TAGSETS):
+                check(caller_sets[k_] == set(want_), "caller-tags-modified",
+                      "the set passed as tags= is now %r" %
+                      (sorted(caller_sets[k_]),), trace=trace[-4:])
         elif kind == "val":
             assign = op[1]
             why = sh.judge_values(assign)
